@@ -801,7 +801,8 @@ func secConjunctions(full bool) []Requirement {
 		{{Scheme: "oa2", Scopes: []string{"s2"}}},
 	}
 	if !full {
-		return append(one[:0:0], one[0], one[1], one[3], Requirement{{Scheme: "jwt", Scopes: []string{"s1", "s2"}}, {Scheme: "aks"}}, one[4])
+		// (the last one: two schemes of the SAME kind in one requirement)
+		return append(one[:0:0], one[0], one[1], one[3], Requirement{{Scheme: "jwt", Scopes: []string{"s1", "s2"}}, {Scheme: "aks"}}, one[4], Requirement{{Scheme: "aks"}, {Scheme: "akq"}})
 	}
 	out := append([]Requirement{}, one...)
 	names := []string{"bsc", "aks", "akq", "jwt", "oa2"}
@@ -833,7 +834,12 @@ func secMethod(name string, used map[string]bool, implicitJWT bool) *Method {
 	if used["jwt"] {
 		add(&Attr{Name: "tok", T: P(KString), Sec: "token"})
 		if !implicitJWT {
-			m.HTTP.Headers = append(m.HTTP.Headers, Map{"tok", "Authorization"})
+			// basic auth owns the Authorization header: goa rejects a token mapped to it as well
+			h := "Authorization"
+			if used["bsc"] {
+				h = "X-Jwt"
+			}
+			m.HTTP.Headers = append(m.HTTP.Headers, Map{"tok", h})
 		}
 	}
 	if used["oa2"] {
